@@ -3,6 +3,7 @@ package main
 import (
 	"fmt"
 	"strings"
+	"sync"
 	"time"
 
 	fpgo "github.com/TeaEntityLab/fpGo/v2"
@@ -141,10 +142,20 @@ func queueClose(capacity, buf, preload int, op string, bound int) *vsched.Scenar
 					vsched.Event(tag, "count", q.Count())
 				}
 			}
-			vsched.GoNamed("user", func() { use("during") })
+			var wg sync.WaitGroup
+			wg.Add(1)
+			vsched.GoNamed("user", func() { use("during"); wg.Done() })
 			q.Close()
 			vsched.Event("closed", q.IsClosed())
 			use("after")
+			// once the racing call is over, too: every entry point still returns (a call that lost the race against
+			// Close must not leave the queue's lock behind). (A second Close is not tried: the property quantifies over
+			// one closing goroutine, and BufferedChannelQueue.Close, like close(ch), panics when repeated.)
+			wg.Wait()
+			_, pollErr := q.Poll()
+			_, takeErr := q.TakeWithTimeout(time.Millisecond)
+			vsched.Event("final", q.Count(), q.GetChannel() != nil, errName(q.Offer(2)), errName(q.Put(3)), errName(pollErr), errName(takeErr))
+			vsched.Event("final-done", q.IsClosed())
 		},
 		Check: func(r *vsched.Result) []vsched.Failure {
 			fs := e1.Basic("C15", fam, r, nil)
@@ -153,6 +164,16 @@ func queueClose(capacity, buf, preload int, op string, bound int) *vsched.Scenar
 			}
 			if e1.Count(r, "closed", true) != 1 {
 				fs = append(fs, e1.Fail("C15|"+fam+"|is-closed", "IsClosed() false after Close returned"))
+			}
+			if len(fs) == 0 && r.Cap == "" {
+				if e1.Count(r, "final-done", true) != 1 {
+					fs = append(fs, e1.Fail("C15|"+fam+"|final-battery", "the calls made after the racing call had returned did not all return, or IsClosed() turned false"))
+				}
+				for _, e := range r.Events {
+					if e.Kind == "final" && (e.Args[2] != "closed" || e.Args[3] != "closed" || e.Args[4] != "closed" || e.Args[5] != "closed") {
+						fs = append(fs, e1.Fail("C15|"+fam+"|after-close-result", "calls made well after Close returned: Offer %v, Put %v, Poll %v, TakeWithTimeout %v (all must report the close)", e.Args[2], e.Args[3], e.Args[4], e.Args[5]))
+					}
+				}
 			}
 			for _, e := range r.Events {
 				if e.Kind != "after" {
